@@ -476,7 +476,7 @@ pub fn swarm_cfg(rng: &mut Rng, cfg: &mut RunCfg, nthreads: usize, allow_stall: 
             site::NOT_DESTRUCTED_CAS,
             crate::sched::SITE_USER,
         ];
-        cfg.stall = Some(StallCfg { victim: rng.below(nthreads as u64) as u32, site: *rng.pick(&sites), nth: 1 + rng.below(12) as u32, k: *rng.pick(&STALL_KS) });
+        cfg.stall = Some(StallCfg { victim: rng.below(nthreads as u64) as u32, site: *rng.pick(&sites), nth: 1 + rng.below(12) as u32, k: *rng.pick(&STALL_KS), release_signal: 0 });
     }
     cfg.buggify_p = if rng.chance(0.3) { 0.25 } else { 0.0 };
     cfg.pop_policy = match rng.below(10) {
@@ -553,3 +553,33 @@ pub fn gen_interp_run(prop: &str, family: &str, seed: u64, profile: Profile) -> 
     RunDesc { prop: prop.to_string(), family: family.to_string(), seed, cfg, threads, params: J::Null, schedule: None, buggify_script: None }
 }
 
+
+/// Family dispatch: a run description is a pure function of (property, family, seed).
+pub fn generate(prop: &str, family: &str, seed: u64) -> RunDesc {
+    let mut d = match family {
+        "rc-mixed" => gen_interp_run(prop, family, seed, Profile::Mixed),
+        "rc-weak" => gen_interp_run(prop, family, seed, Profile::Weak),
+        "rc-cells" => gen_interp_run(prop, family, seed, Profile::Cells),
+        "rc-wcells" => gen_interp_run(prop, family, seed, Profile::WCells),
+        "rc-bulk" => gen_interp_run(prop, family, seed, Profile::Bulk),
+        "ebr" => gen_interp_run(prop, family, seed, Profile::Ebr),
+        "ebr-churn" => crate::fam_ebr::gen_churn(prop, seed),
+        "guards" => gen_interp_run(prop, family, seed, Profile::Guards),
+        "tls" => gen_interp_run(prop, family, seed, Profile::Tls),
+        "dir-t1" => crate::dir::t1(prop, seed),
+        "dir-t2" => crate::dir::t2(prop, seed),
+        "dir-t3" => crate::dir::t3(prop, seed),
+        "dir-t4" => crate::dir::t4(prop, seed),
+        "dir-t5" => crate::dir::t5(prop, seed),
+        "dir-t6" => crate::dir::t6(prop, seed),
+        "dir-w" => crate::dir::w(prop, seed),
+        "queue" => crate::fam_queue::gen(prop, seed),
+        "list" => crate::fam_list::gen(prop, seed),
+        "chain" => crate::fam_chain::gen(prop, seed, false),
+        "chain-stack" => crate::fam_chain::gen(prop, seed, true),
+        "agesweep" => crate::fam_sweep::gen(prop, seed),
+        _ => gen_interp_run(prop, family, seed, Profile::Mixed),
+    };
+    d.family = family.to_string();
+    d
+}
